@@ -125,7 +125,8 @@ static int find_visit(const void *e, void *p)
     int id = id_of_el(e);
     e_check_priv(p);
     ev_add("[\"v\",%d]", id);
-    return id == cb_accept;
+    /* any non-zero result accepts the element: positive, negative, large */
+    return id == cb_accept ? (id % 3 == 0 ? 65536 : id % 3 == 1 ? -1 : 1) : 0;
 }
 static int each_visit(void *e, void *p)
 {
@@ -308,7 +309,7 @@ static int drv_enum(vop_t *ops, int max)
         vop_t o = { 4, { k, 0, 0 } }; ops[no++] = o;
         if (PROBES) {
             o.a[1] = 1; o.a[2] = 0; ops[no++] = o;              /* visit accepts nothing */
-            for (e = 1; e <= NE; e++) if ((int)keyof[e] == k && PROBES > 1) { o.a[2] = e; ops[no++] = o; }
+            for (e = 1; e <= NE; e++) if ((int)keyof[e] == k) { o.a[2] = e; ops[no++] = o; }      /* the visit function accepts element e */
         }
     }
     { vop_t o = { 6, { 0, 0 } }; ops[no++] = o; }
@@ -337,6 +338,7 @@ static int drv_random(unsigned long (*rnd)(void), vop_t *op)
     } else if (r < 82) {
         op->k = 4; op->a[0] = (int)(rnd() % (unsigned)(MAXK + 1)); op->a[1] = (int)(rnd() % 2);
         op->a[2] = op->a[1] && (rnd() & 1) ? 1 + (int)(rnd() % (unsigned)NE) : 0;
+        if (op->a[2] && (rnd() & 3)) { int e, tries; for (tries = 0; tries < 6; tries++) { e = 1 + (int)(rnd() % (unsigned)NE); if ((int)keyof[e] == op->a[0]) { op->a[2] = e; break; } } }   /* mostly: an element that has the key */
     } else if (r < 85) { op->k = 1;
     } else if (r < 88) { op->k = 2; op->a[0] = FAULTS && (rnd() % 4 == 0);
     } else if (r < 91) { op->k = 7; op->a[0] = (rnd() & 1) ? 0 : (int)(rnd() % (h->count + 1));
